@@ -17,6 +17,9 @@ CFG = dict(
     n={"quick": 20000, "thorough": 1000000, "search": 20000},
     thorough_seeds=1,
     timeout={"quick": 300, "thorough": 1700},
+    # the overlay calls unexported sticky functions: full build with tag c08pieces, fallback = Plan-level harness only
+    build_tags=["c08pieces"],
+    fallback_tags=[],
     level="proof",
     assumptions=[
         "range: float rounding as a relational parameter (RangeBoundary), checked per run on the real bounds",
